@@ -108,7 +108,7 @@ def cases(rng, which, count):
                 se = esc(fasta(er))
                 fl = [f for f in ("--ignore-gaps", "--ignore-n") if rng.random() < 0.4]
                 yield Case("cli_lib", [se, "stats", "maxchar"] + fl, True, "cli-stats-maxchar")
-                for sub in ("nseq", "length", "taxa", "gaps"):
+                for sub in ("nseq", "length", "taxa", "gaps", "nalign"):
                     yield Case("cli_lib", [se, "stats", sub], True, "cli-stats-" + sub)
                 yield Case("cli_lib", [se, "diff"], True, "cli-diff")
             elif w == "diff":
@@ -648,6 +648,27 @@ def cases(rng, which, count):
                 fl = [x for g in groups for x in g]
                 if "" not in fl and not tm.startswith("-") and not pat.startswith("-"):
                     yield Case("cli_lib", [st, "replace"] + fl, True, "cli-replace-regexp" if q >= 0.2 or q < 0.08 else "cli-replace-flags")
+            elif w == "replace-file":
+                # `replace -f <file>`: name, site, character per line; comments; further columns; malformed lines, sites outside,
+                # absent names, an absent file
+                names = [r[0] for r in rows]
+                lines = []
+                for _ in range(rng.randint(0, 5)):
+                    nm = rng.choice(names) if rng.random() < 0.95 else "nope"
+                    site = str(rng.randint(0, L - 1)) if rng.random() < 0.93 else rng.choice(["-1", str(L), "x", ""])
+                    ch = rng.choice(["A", "N", "-", "t", "XY", "*"])
+                    ln = "%s~%s~%s" % (nm, site, ch)
+                    if rng.random() < 0.1:
+                        ln += "~comment"
+                    if rng.random() < 0.04:
+                        ln = rng.choice(["%s~%s" % (nm, site), nm, ""])
+                    lines.append(ln)
+                    if rng.random() < 0.15:
+                        lines.append("#" + rng.choice(["", " a comment", "s0~0~A"]))
+                txt = "".join(l + "|" for l in lines)
+                if lines and rng.random() < 0.15:
+                    txt = txt[:-1]
+                yield Case("cli_libf", [st, "pos.txt=" + txt, "replace", rng.choice(["-f", "--posfile"]), "pos.txt" if rng.random() < 0.95 else "absent.txt"], True, "cli-replace-posfile")
             elif w == "concat":
                 names = [r[0] for r in rows]
                 L2 = rng.randint(1, 8)
